@@ -160,6 +160,28 @@ func VerifC01History() {
 	checkStats("after draining")
 }
 
+// verifC01schedule makes every mutex acquisition a scheduling decision: before taking the
+// lock the calling goroutine may let the other goroutines run (up to `deferrals` times; they
+// run until their own next acquisition decision, until they block or poll). All accesses to
+// the pipe's shared fields happen inside critical sections of its one mutex, so the
+// interleavings of critical sections are the interleavings that matter; code between two
+// acquisitions is goroutine-local. (The engine's own rt.SymSched(true) also forks at the
+// `select` on the never-cancelled context and at every poll, which multiplies the schedules
+// by a factor of about 10^4 for the smallest configuration without adding behaviours.)
+func verifC01schedule(deferrals int) {
+	rt.Stub("(*sync.Mutex).Lock", func(m *sync.Mutex) {
+		for d := 0; d < deferrals; d++ {
+			if rt.Choice("defer", 2) == 0 {
+				break
+			}
+			rt.Yield()
+		}
+		for !m.TryLock() {
+			rt.Yield()
+		}
+	})
+}
+
 // VerifC01Threads: nw writer goroutines (each: `chunks` writes of `len` bytes, then Close)
 // and one reader goroutine (Read into a buffer of 1..r bytes until end-of-stream) on one
 // pipe with back-pressure threshold `max`, under every interleaving at synchronisation
@@ -168,7 +190,7 @@ func VerifC01History() {
 func VerifC01Threads() {
 	nw, chunks, clen, rmax, max := rt.Param("writers"), rt.Param("chunks"), rt.Param("len"), rt.Param("r"), rt.Param("max")
 	s := verifC01new(max)
-	rt.SymSched(true)
+	verifC01schedule(rt.Param("defer"))
 
 	var (
 		wg       sync.WaitGroup
